@@ -53,7 +53,7 @@ func TestVerifC11(t *testing.T) {
 	alpha := func(monitor bool) dvAlphabet {
 		return dvAlphabet{
 			maxDepth:   depth,
-			maxCases:   120000,
+			maxCases:   80000,
 			waitCancel: true,
 			dials: func(cancelled bool, at int) []dvDial {
 				var l []dvDial
